@@ -123,3 +123,20 @@ def _f12b(v):
 @matcher("F2_path_divergence_rejected_update")
 def _f2c(v):
     return v["oracle"] == "C11.backend_rejected_update" and _script_has_failing_wfc(v["case"].get("script", [])) and "program" in v["case"]
+
+
+@matcher("F24_large_batch_straggler_replay")
+def _f24(v):
+    """Early-completed map/parallel whose (oversized) result was stored as a summary: a branch reported STARTED at
+    decision time recorded its own terminal outcome before the batch's completion record; the replay rebuilds the
+    result from the children and reports that branch SUCCEEDED/FAILED (and may change the completion reason).  Every
+    other item must be unchanged."""
+    if not v["oracle"].endswith(".replayed_batch_result_differs"):
+        return False
+    if not (v["case"].get("scenario") or {}).get("ckpt_limit"):
+        return False
+    a, b = v["detail"]["first"]["items"], v["detail"]["later"]["items"]
+    if len(a) != len(b):
+        return False
+    changed = [(x, y) for x, y in zip(a, b) if x != y]
+    return bool(changed) and all(x[1] == "STARTED" and y[1] in ("SUCCEEDED", "FAILED") and x[0] == y[0] for x, y in changed)
